@@ -522,6 +522,69 @@ static void family_dss(const Grp *G, bool thorough)
 	}
 }
 
+// ---------------------------------------------------------------- family dssmin
+// DSS with the minimal admissible number of signers n = 2t+1 (broadcast layer with the largest t' < n/3): the loss of a single
+// signer anywhere in Sign leaves fewer than the 2t+1 values the linear combination of Step 2 needs, so every honest party must
+// either refuse or still output a valid signature.  (3,1): every single F x {silent from its k-th broadcast (every k), wrong
+// value in every own broadcast and every private message of Sign, outcast, built-in switch patterns}; worlds Generate, Sign
+// and Generate, Sign, Refresh, Sign.  Thorough: the same for (5,2) with every single F (tamper positions of signer n-1 only)
+// and all pairs F silent / built-in.  Added after seeded change C16-4.
+static void family_dssmin(const Grp *G, bool thorough)
+{
+	std::vector<NT> nts;
+	nts.push_back(NT(3, 1));
+	if (thorough) nts.push_back(NT(5, 2));
+	Msgs M = messages(G[0], g_seed, DSS);
+	for (size_t c = 0; c < nts.size() && !g_stop; c++)
+	{
+		Cfg base;
+		base.scheme = DSS, base.gi = 0, base.G = &G[0], base.n = nts[c].first, base.t = nts[c].second;
+		base.msgs.push_back(M.val[5]), base.mnames.push_back(M.name[5]);
+		if (!prefix_selected(base)) continue;
+		const size_t n = base.n;
+		World W0 = run_case(base);
+		consider(base, &W0);
+		Cfg two = base;
+		two.msgs.push_back(M.val[6]), two.mnames.push_back(M.name[6]);
+		consider(two);
+		std::vector<std::vector<int> > Fs;
+		subsets(n, base.t, Fs);
+		std::vector<Beh> pats;
+		dss_patterns(pats, n == 3 ? 1 : 0);
+		for (size_t f = 0; f < Fs.size() && !g_stop; f++)
+		{
+			const bool single = (Fs[f].size() == 1);
+			Cfg C = two;
+			C.F = Fs[f];
+			for (size_t k = 0; k < pats.size(); k++) { C.beh = pats[k]; consider(C); }
+			C.beh = Beh(), C.beh.kind = SILENT;
+			consider(C);
+			C.beh = Beh(), C.beh.kind = OUTCAST;
+			consider(C);
+			if (!single) continue;
+			if (n > 3 && Fs[f][0] != (int)n - 1) continue;
+			Cfg E = base;
+			E.F = Fs[f];
+			unsigned nb = W0.nb[E.F[0]], nu = W0.nu[E.F[0]];
+			for (unsigned pos = 0; pos < nb; pos++)
+			{
+				E.beh = Beh(), E.beh.kind = TAMPER_B, E.beh.pos = (int)pos;
+				consider(E);
+			}
+			for (unsigned pos = 0; pos < nu; pos++)
+			{
+				E.beh = Beh(), E.beh.kind = TAMPER_U, E.beh.pos = (int)pos;
+				consider(E);
+			}
+			for (unsigned pos = 1; pos <= nb; pos++)
+			{
+				E.beh = Beh(), E.beh.kind = SILENT, E.beh.pos = (int)pos;
+				consider(E);
+			}
+		}
+	}
+}
+
 // ---------------------------------------------------------------- family msg
 static void family_msg(const Grp *G, bool thorough)
 {
@@ -695,6 +758,7 @@ int main(int argc, char **argv)
 	R.max_samples = 3;
 	if (fam == "nts" || fam == "all") family_nts(G, thorough);
 	if (fam == "dss" || fam == "all") family_dss(G, thorough);
+	if (fam == "dssmin" || fam == "all") family_dssmin(G, thorough);
 	if (fam == "msg" || fam == "all") family_msg(G, thorough);
 	if (fam == "verify" || fam == "all") family_verify(G, thorough);
 	R.bound = std::string("family ") + fam + ", tier " + A.tier + ": all listed cells (see header)";
